@@ -61,6 +61,13 @@ def eq_values(I, st, a, b):
     if a is b:
         if not (is_z3(a)):
             return True
+    if type(a).__name__ == "DtypeVal" or type(b).__name__ == "DtypeVal":
+        # numpy dtype == dtype / dtype == "O" (a dtype name)
+        from .npmodel import as_dtype_kind
+
+        if not (type(a).__name__ == "DtypeVal" or isinstance(a, str)) or not (type(b).__name__ == "DtypeVal" or isinstance(b, str)):
+            raise Unsupported("== between a dtype and %r" % ((b if type(a).__name__ == "DtypeVal" else a),))
+        return as_dtype_kind(a) == as_dtype_kind(b)
     from . import bytesmodel as _bm
     from .heap import HObj as _HObj, unwrap as _unwrap
 
@@ -120,6 +127,8 @@ def eq_values(I, st, a, b):
         if ea.kind in ("list", "deque"):
             return seq_eq(I, st, ea.items, eb.items)
         if ea.kind == "dict":
+            if dict_symkeyed(ea) or dict_symkeyed(eb):
+                raise Unsupported("== on dictionaries with symbolic keys")
             if set(ea.items) != set(eb.items):
                 return False
             return conj([eq_values(I, st, ea.items[k], eb.items[k]) for k in ea.items])
@@ -356,8 +365,9 @@ def contains(I, st, container, item):
             yield st, I.hashable(item) in e.items
             return
         if e.kind == "dict":
-            if is_z3(item):
-                # symbolic key against concrete keys
+            if has_symkey(item) or dict_symkeyed(e):
+                # symbolic key against the keys (or a key against symbolic keys)
+                check_symkey(I, item)
                 yield st, disj([eq_values(I, st, k, item) for k in e.items])
                 return
             yield st, I.hashable(item) in e.items
@@ -468,7 +478,7 @@ def getitem(I, st, obj, idx):
             yield from index_concrete_seq(I, st, e.items, idx, obj)
             return
         if e.kind == "dict":
-            if is_z3(idx):
+            if has_symkey(idx) or dict_symkeyed(e):
                 yield from dict_symbolic_get(I, st, e, idx)
                 return
             k = I.hashable(idx)
@@ -581,7 +591,71 @@ def index_concrete_seq(I, st, items, idx, orig):
     raise Unsupported("index %r" % (idx,))
 
 
+def has_symkey(k):
+    """a numeric z3 term, or a tuple containing one, used as dictionary key"""
+    if is_z3(k):
+        return True
+    if isinstance(k, tuple):
+        return any(has_symkey(x) for x in k)
+    return False
+
+
+def dict_symkeyed(e):
+    return any(has_symkey(k) for k in e.items)
+
+
+def check_symkey(I, k):
+    """keys the dictionary model accepts: concrete hashables, Int/Real terms, tuples of those"""
+    if is_z3(k):
+        if not (z3.is_int(k) or z3.is_real(k)):
+            raise Unsupported("symbolic dictionary/set key")
+        return k
+    if isinstance(k, tuple):
+        for x in k:
+            check_symkey(I, x)
+        return k
+    return I.hashable(k)
+
+
+def dict_store(I, st, obj, idx, v):
+    """d[idx] = v with Python semantics when idx or some key of d is symbolic: an entry whose key EQUALS idx keeps its
+    key and gets the value (one path per key that can equal idx, the equality joins the path condition); otherwise
+    idx becomes a new key (and is known to differ from every other key on that path).  Keys of one dictionary are
+    therefore pairwise different on every path, so len() stays the number of entries."""
+    e = st.get(obj)
+    check_symkey(I, idx)
+    if not has_symkey(idx) and not dict_symkeyed(e):
+        e.items[idx] = v
+        yield st, None
+        return
+    if idx in e.items:  # structurally the same key
+        e.items[idx] = v
+        yield st, None
+        return
+    keys = list(e.items)
+    for k in keys:
+        c = eq_values(I, st, k, idx)
+        if c is False:
+            continue
+        if I.feasible(st, c):
+            st2 = st.fork()
+            if is_z3(c):
+                st2.pc.append(c)
+            st2.get(obj).items[k] = v
+            yield st2, None
+    none = conj([znot(eq_values(I, st, k, idx)) for k in keys])
+    if none is not False and I.feasible(st, none):
+        st3 = st.fork()
+        if is_z3(none):
+            st3.pc.append(none)
+        st3.get(obj).items[idx] = v
+        yield st3, None
+
+
 def dict_symbolic_get(I, st, e, idx):
+    check_symkey(I, idx)
+    if e.__dict__.get("default_factory") is not None:
+        raise Unsupported("defaultdict with a symbolic key")
     keys = list(e.items)
     for k in keys:
         c = eq_values(I, st, k, idx)
@@ -634,8 +708,7 @@ def setitem(I, st, obj, idx, v):
                             yield st2, None
                 return
         if e.kind == "dict":
-            e.items[I.hashable(idx)] = v
-            yield st, None
+            yield from dict_store(I, st, obj, idx, v)
             return
         if e.kind == "symlist":
             i = z3val(as_arith(idx))
@@ -667,6 +740,8 @@ def delitem(I, st, obj, idx):
     if isinstance(obj, Ref):
         e = st.get(obj)
         if e.kind == "dict":
+            if dict_symkeyed(e):
+                raise Unsupported("del on a dictionary with symbolic keys")
             k = I.hashable(idx)
             if k in e.items:
                 del e.items[k]
